@@ -1,5 +1,665 @@
 (** C14 — lemmas and invariants. *)
 From Coq Require Import ZArith List Bool Arith Lia.
 Import ListNotations.
-Require Import Nib.C14.Model Nib.C14.Spec.
+Require Import Nib.C14.Model Nib.C14.Spec Nib.C14.Check.
 Local Open Scope Z_scope.
+Arguments begin_block : simpl never.
+Arguments add_epoch : simpl never.
+
+(* ---------------------------------------------------------------- one info, one block *)
+
+Lemma should_tick_exact e t :
+  should_tick e t = true <->
+  e_start e <= t /\ (e_started e = false \/ e_cur_start e + e_dur e <= t).
+Proof.
+  unfold should_tick. rewrite andb_true_iff, orb_true_iff, negb_true_iff, !Z.leb_le. tauto.
+Qed.
+
+Lemma step_info_static t h e :
+  e_id (fst (step_info t h e)) = e_id e /\ e_start (fst (step_info t h e)) = e_start e /\
+  e_dur (fst (step_info t h e)) = e_dur e.
+Proof.
+  unfold step_info, tick. destruct (should_tick e t); [destruct (e_started e)|]; simpl; auto.
+Qed.
+
+Lemma step_info_hook_ids t h e x : In x (snd (step_info t h e)) -> hook_id x = e_id e.
+Proof.
+  unfold step_info, tick. destruct (should_tick e t); [destruct (e_started e)|]; simpl; intuition; subst; reflexivity.
+Qed.
+
+(** under well-formedness and a clock that did not go back (or a non-negative duration) the code's
+    condition is the property's condition *)
+Lemma should_tick_cond now e t :
+  wf_info now e -> (now <= t \/ 0 <= e_dur e) -> (should_tick e t = true <-> cond e t).
+Proof.
+  intros [W0 W1] Ht. rewrite should_tick_exact. unfold cond.
+  destruct (e_started e) eqn:Es.
+  - destruct (W1 eq_refl) as [A B]. split.
+    + intros [_ [X|X]]; [discriminate|right; auto].
+    + intros [[X _]|[_ X]]; [discriminate|]. split; [lia|right; exact X].
+  - split.
+    + intros [X _]. left. auto.
+    + intros [[_ X]|[X _]]; [|discriminate]. split; [exact X|left; reflexivity].
+Qed.
+
+Lemma wf_step now t h e : wf_info now e -> now <= t -> wf_info t (fst (step_info t h e)).
+Proof.
+  intros [W0 W1] Ht. unfold step_info. destruct (should_tick e t) eqn:St.
+  - apply should_tick_exact in St. destruct St as [S1 _].
+    unfold tick. destruct (e_started e); simpl; split; simpl; intros; try discriminate; lia.
+  - simpl. split; [exact W0|]. intro X. destruct (W1 X). lia.
+Qed.
+
+Lemma wf_later now t e : wf_info now e -> now <= t -> wf_info t e.
+Proof. intros [W0 W1] Ht. split; [exact W0|]. intro X. destruct (W1 X). lia. Qed.
+
+(** the property for one info, given that [l] restricted to its identifier is what this info emitted *)
+Lemma step_info_P now t h l e :
+  wf_info now e -> (now <= t \/ 0 <= e_dur e) ->
+  proj (e_id e) l = snd (step_info t h e) ->
+  P_info t h l e (fst (step_info t h e)).
+Proof.
+  intros W Ht Hl. pose proof (should_tick_cond now e t W Ht) as Hc.
+  destruct (step_info_static t h e) as [S1 [S2 S3]].
+  unfold P_info. split; [exact S1|]. split; [exact S2|]. split; [exact S3|].
+  rewrite Hl. clear Hl S1 S2 S3. unfold step_info in *.
+  destruct (should_tick e t) eqn:St.
+  - assert (C : cond e t) by (apply Hc; reflexivity).
+    unfold tick, tick_hooks. destruct W as [W0 W1].
+    destruct (e_started e) eqn:Es; simpl.
+    + split; [right; reflexivity|]. split; [tauto|]. split; [intros _; auto|]. intro; lia.
+    + rewrite (W0 eq_refl). simpl. split; [right; reflexivity|]. split; [tauto|].
+      split; [intros _; auto|]. intro; lia.
+  - assert (C : ~ cond e t) by (intro X; apply Hc in X; discriminate).
+    simpl. split; [left; reflexivity|]. split; [split; [intro; lia|intro; contradiction]|].
+    split; [intro; lia|]. auto.
+Qed.
+
+(* ---------------------------------------------------------------- projections of a block's hook list *)
+
+Lemma proj_app i a b : proj i (a ++ b) = proj i a ++ proj i b.
+Proof. unfold proj. apply filter_app. Qed.
+
+Lemma proj_all i l : (forall x, In x l -> hook_id x = i) -> proj i l = l.
+Proof.
+  induction l as [|x l IH]; intro H; simpl; [reflexivity|].
+  rewrite (H x (or_introl eq_refl)), Nat.eqb_refl. f_equal. apply IH. intros; apply H; right; assumption.
+Qed.
+
+Lemma proj_none i l : (forall x, In x l -> hook_id x <> i) -> proj i l = [].
+Proof.
+  induction l as [|x l IH]; intro H; simpl; [reflexivity|].
+  destruct (Nat.eqb (hook_id x) i) eqn:E.
+  - apply Nat.eqb_eq in E. exfalso. apply (H x); [left; reflexivity|exact E].
+  - apply IH. intros; apply H; right; assumption.
+Qed.
+
+Definition block_hooks (t h : Z) (s : state) : list hook := concat (map snd (map (step_info t h) s)).
+
+Lemma begin_block_eq s t h :
+  begin_block s t h = (map (fun e => fst (step_info t h e)) s, block_hooks t h s).
+Proof. unfold begin_block, block_hooks. rewrite map_map. reflexivity. Qed.
+
+Lemma block_hooks_absent t h i s : ~ In i (ids s) -> proj i (block_hooks t h s) = [].
+Proof.
+  unfold block_hooks. induction s as [|e s IH]; intro H; simpl; [reflexivity|].
+  rewrite proj_app. rewrite IH by (intro X; apply H; right; exact X).
+  rewrite proj_none; [reflexivity|]. intros x Hx. rewrite (step_info_hook_ids _ _ _ _ Hx).
+  intro X. apply H. left. exact X.
+Qed.
+
+Lemma block_hooks_proj t h s e :
+  NoDup (ids s) -> In e s -> proj (e_id e) (block_hooks t h s) = snd (step_info t h e).
+Proof.
+  unfold block_hooks. induction s as [|x s IH]; intros Hn Hin; [destruct Hin|].
+  simpl in Hn. inversion Hn as [|? ? Hx Hn']; subst. simpl. rewrite proj_app.
+  destruct Hin as [->|Hin].
+  - rewrite proj_all by (intros y Hy; apply (step_info_hook_ids _ _ _ _ Hy)).
+    fold (block_hooks t h s). rewrite block_hooks_absent by exact Hx. apply app_nil_r.
+  - rewrite proj_none.
+    + simpl. apply IH; assumption.
+    + intros y Hy. rewrite (step_info_hook_ids _ _ _ _ Hy). intro X. apply Hx. rewrite X.
+      apply in_map. exact Hin.
+Qed.
+
+Lemma block_hooks_known t h s x : In x (block_hooks t h s) -> exists e, In e s /\ e_id e = hook_id x.
+Proof.
+  unfold block_hooks. induction s as [|e s IH]; simpl; [intros []|]. intro H.
+  apply in_app_or in H. destruct H as [H|H].
+  - exists e. split; [left; reflexivity|]. symmetry. apply (step_info_hook_ids _ _ _ _ H).
+  - destruct (IH H) as [y [Hy Hi]]. exists y. split; [right; exact Hy|exact Hi].
+Qed.
+
+Lemma ids_begin_block s t h : ids (fst (begin_block s t h)) = ids s.
+Proof.
+  rewrite begin_block_eq. simpl. unfold ids. rewrite map_map. apply map_ext.
+  intro e. apply (step_info_static t h e).
+Qed.
+
+(** BeginBlocker satisfies the per-block property on every well-formed state *)
+Lemma begin_block_P now s t h :
+  Inv now s -> now <= t ->
+  P_block t h s (fst (begin_block s t h)) (snd (begin_block s t h)).
+Proof.
+  intros [W N] Ht. rewrite begin_block_eq. simpl. split.
+  - assert (G : forall s', (forall e, In e s' -> In e s) ->
+                 Forall2 (P_info t h (block_hooks t h s)) s' (map (fun e => fst (step_info t h e)) s')).
+    { induction s' as [|e s' IH]; intro Hs; simpl; constructor.
+      - apply (step_info_P now).
+        + rewrite Forall_forall in W. apply W. apply Hs. left. reflexivity.
+        + left. exact Ht.
+        + apply block_hooks_proj; [exact N|apply Hs; left; reflexivity].
+      - apply IH. intros; apply Hs; right; assumption. }
+    apply G. auto.
+  - apply block_hooks_known.
+Qed.
+
+Lemma Inv_begin_block now s t h : Inv now s -> now <= t -> Inv t (fst (begin_block s t h)).
+Proof.
+  intros [W N] Ht. split.
+  - rewrite begin_block_eq. simpl. rewrite Forall_forall in *. intros x Hx.
+    apply in_map_iff in Hx. destruct Hx as [e [<- He]]. apply (wf_step now); auto.
+  - rewrite ids_begin_block. exact N.
+Qed.
+
+(* ---------------------------------------------------------------- AddEpochInfo *)
+
+Lemma has_id_ids i s : has_id i s = true <-> In i (ids s).
+Proof.
+  induction s as [|e s IH]; simpl; [split; [discriminate|intros []]|].
+  rewrite orb_true_iff, Nat.eqb_eq, IH. tauto.
+Qed.
+
+Lemma ids_insert x s : forall i, In i (ids (insert x s)) <-> i = e_id x \/ In i (ids s).
+Proof.
+  induction s as [|e s IH]; intro i; simpl; [intuition|].
+  destruct (Nat.ltb (e_id x) (e_id e)); simpl; [intuition|]. rewrite IH. intuition.
+Qed.
+
+Lemma In_insert x s y : In y (insert x s) <-> y = x \/ In y s.
+Proof.
+  induction s as [|e s IH]; simpl; [intuition|].
+  destruct (Nat.ltb (e_id x) (e_id e)); simpl; [intuition|]. rewrite IH. intuition.
+Qed.
+
+Lemma NoDup_insert x s : NoDup (ids s) -> ~ In (e_id x) (ids s) -> NoDup (ids (insert x s)).
+Proof.
+  induction s as [|e s IH]; intros Hn Hx; simpl; [constructor; [intros []|constructor]|].
+  destruct (Nat.ltb (e_id x) (e_id e)); simpl.
+  - constructor; assumption.
+  - simpl in Hn. inversion Hn as [|? ? He Hn']; subst. constructor.
+    + intro X. apply ids_insert in X. destruct X as [X|X]; [apply Hx; left; exact X|contradiction].
+    + apply IH; [exact Hn'|]. intro X. apply Hx. right. exact X.
+Qed.
+
+Lemma add_epoch_cases s ct ch a :
+  (add_epoch s ct ch a = (s, false)) \/
+  (has_id (a_id a) s = false /\ add_epoch s ct ch a = (insert (added ct ch a) s, true)).
+Proof.
+  unfold add_epoch, added.
+  destruct (a_empty a || (a_dur a =? 0) || (a_height a <? 0)); [left; reflexivity|].
+  destruct (has_id (a_id a) s) eqn:E; [left; reflexivity|right; split; reflexivity].
+Qed.
+
+Lemma Inv_add now s ct ch a :
+  Inv now s -> now <= ct -> add_wf (Add ct ch a) -> Inv ct (fst (add_epoch s ct ch a)).
+Proof.
+  intros [W N] Ht Ha.
+  assert (W' : Forall (wf_info ct) s).
+  { rewrite Forall_forall in *. intros x Hx. apply (wf_later now); auto. }
+  destruct (add_epoch_cases s ct ch a) as [E|[Hid E]]; rewrite E; simpl.
+  - split; assumption.
+  - split.
+    + rewrite Forall_forall in *. intros x Hx. apply In_insert in Hx. destruct Hx as [->|Hx]; [exact Ha|auto].
+    + apply NoDup_insert; [exact N|]. simpl. intro X. apply has_id_ids in X. congruence.
+Qed.
+
+(* ---------------------------------------------------------------- whole traces *)
+
+Lemma run_cons s o r :
+  run s (o :: r) = (fst (run (fst (step s o)) r), snd (step s o) :: snd (run (fst (step s o)) r)).
+Proof. simpl. destruct (step s o) as [s1 x]. simpl. destruct (run s1 r). reflexivity. Qed.
+
+Lemma step_block s t h :
+  step s (Block t h) = (fst (begin_block s t h),
+                        {| o_ok := true; o_infos := fst (begin_block s t h); o_hooks := snd (begin_block s t h) |}).
+Proof. unfold step. destruct (begin_block s t h). reflexivity. Qed.
+
+Lemma step_add s ct ch a :
+  step s (Add ct ch a) = (fst (add_epoch s ct ch a),
+                          {| o_ok := snd (add_epoch s ct ch a); o_infos := fst (add_epoch s ct ch a); o_hooks := [] |}).
+Proof. unfold step. destruct (add_epoch s ct ch a). reflexivity. Qed.
+
+Lemma step_infos s o : o_infos (snd (step s o)) = fst (step s o).
+Proof. destruct o; [rewrite step_block|rewrite step_add]; reflexivity. Qed.
+
+Lemma Inv_step now s o : Inv now s -> now <= op_time o -> add_wf o -> Inv (op_time o) (fst (step s o)).
+Proof.
+  intros I Ht Ha. destruct o as [t h|ct ch a].
+  - rewrite step_block. exact (Inv_begin_block now s t h I Ht).
+  - rewrite step_add. exact (Inv_add now s ct ch a I Ht Ha).
+Qed.
+
+(** MAIN (per block, along any history): the model's trace satisfies the property *)
+Theorem trace_satisfies_property : forall ops now s,
+  Inv now s -> ops_ok now ops -> P_trace s (combine ops (snd (run s ops))).
+Proof.
+  induction ops as [|o r IH]; intros now s Iv Ho; [simpl; exact I|].
+  destruct Ho as [Ht [Ha Hr]]. rewrite run_cons. cbn [snd combine].
+  pose proof (Inv_step now s o Iv Ht Ha) as I'.
+  pose proof (IH _ _ I' Hr) as Hrest.
+  destruct o as [t h|ct ch a]; cbn [P_trace]; rewrite step_infos.
+  - split; [|exact Hrest]. rewrite step_block. exact (begin_block_P now s t h Iv Ht).
+  - exact Hrest.
+Qed.
+
+(* ---------------------------------------------------------------- lookup *)
+
+Lemma lookup_In i s e : lookup i s = Some e -> In e s /\ e_id e = i.
+Proof.
+  induction s as [|x s IH]; simpl; [discriminate|].
+  destruct (Nat.eqb (e_id x) i) eqn:E.
+  - intro H. inversion H; subst. apply Nat.eqb_eq in E. auto.
+  - intro H. destruct (IH H). auto.
+Qed.
+
+Lemma lookup_none i s : lookup i s = None <-> ~ In i (ids s).
+Proof.
+  induction s as [|x s IH]; simpl; [intuition|].
+  destruct (Nat.eqb (e_id x) i) eqn:E.
+  - apply Nat.eqb_eq in E. split; [discriminate|]. intro H. exfalso. apply H. left. exact E.
+  - apply Nat.eqb_neq in E. rewrite IH. intuition.
+Qed.
+
+Lemma lookup_begin_block i s t h :
+  lookup i (fst (begin_block s t h)) = option_map (fun e => fst (step_info t h e)) (lookup i s).
+Proof.
+  rewrite begin_block_eq. simpl. induction s as [|x s IH]; simpl; [reflexivity|].
+  destruct (step_info_static t h x) as [-> _]. destruct (Nat.eqb (e_id x) i); [reflexivity|exact IH].
+Qed.
+
+Lemma lookup_insert_other x s i : e_id x <> i -> lookup i (insert x s) = lookup i s.
+Proof.
+  intro Hx. induction s as [|e s IH]; simpl.
+  - apply Nat.eqb_neq in Hx. rewrite Hx. reflexivity.
+  - destruct (Nat.ltb (e_id x) (e_id e)); simpl.
+    + apply Nat.eqb_neq in Hx. rewrite Hx. reflexivity.
+    + rewrite IH. reflexivity.
+Qed.
+
+Lemma lookup_insert_same x s : lookup (e_id x) s = None -> lookup (e_id x) (insert x s) = Some x.
+Proof.
+  induction s as [|e s IH]; simpl; intro H.
+  - rewrite Nat.eqb_refl. reflexivity.
+  - destruct (Nat.eqb (e_id e) (e_id x)) eqn:E; [discriminate|].
+    destruct (Nat.ltb (e_id x) (e_id e)); simpl.
+    + rewrite Nat.eqb_refl. reflexivity.
+    + rewrite E. apply IH. exact H.
+Qed.
+
+(** an existing identifier is never touched by AddEpochInfo *)
+Lemma lookup_add i s ct ch a e :
+  lookup i s = Some e -> lookup i (fst (add_epoch s ct ch a)) = Some e.
+Proof.
+  intro H. destruct (add_epoch_cases s ct ch a) as [E|[Hid E]]; rewrite E; simpl; [exact H|].
+  rewrite lookup_insert_other; [exact H|]. simpl. intro X. subst i.
+  destruct (lookup_In _ _ _ H) as [Hin Hi].
+  assert (has_id (a_id a) s = true) by (apply has_id_ids; rewrite <- Hi; apply in_map; exact Hin).
+  congruence.
+Qed.
+
+Lemma NoDup_step s o : NoDup (ids s) -> NoDup (ids (fst (step s o))).
+Proof.
+  intro N. destruct o as [t h|ct ch a]; [rewrite step_block|rewrite step_add]; cbn [fst].
+  - rewrite ids_begin_block. exact N.
+  - destruct (add_epoch_cases s ct ch a) as [E|[Hid E]]; rewrite E; simpl; [exact N|].
+    apply NoDup_insert; [exact N|]. simpl. intro X. apply has_id_ids in X. congruence.
+Qed.
+
+(* ---------------------------------------------------------------- monotone epoch numbers *)
+
+(** the part of well-formedness monotonicity needs: an epoch that is not counting has number <= 1 *)
+Definition cur_ok (e : einfo) : Prop := e_started e = false -> e_cur e <= 1.
+
+Definition add_cur_ok (o : op) : Prop :=
+  match o with Block _ _ => True | Add ct ch a => cur_ok (added ct ch a) end.
+
+Lemma step_info_cur t h e :
+  cur_ok e ->
+  cur_ok (fst (step_info t h e)) /\ e_cur e <= e_cur (fst (step_info t h e)) <= Z.max 1 (e_cur e + 1) /\
+  (e_started e = true -> e_started (fst (step_info t h e)) = true /\
+                         e_cur (fst (step_info t h e)) <= e_cur e + 1).
+Proof.
+  intro C. unfold step_info, tick, cur_ok in *.
+  destruct (should_tick e t); [destruct (e_started e) eqn:Es|]; simpl.
+  - repeat split; intros; try discriminate; lia.
+  - specialize (C eq_refl). repeat split; intros; try discriminate; lia.
+  - repeat split; intros; auto; lia.
+Qed.
+
+Theorem epoch_number_monotone : forall ops s i e,
+  Forall cur_ok s -> Forall add_cur_ok ops -> lookup i s = Some e ->
+  exists e', lookup i (fst (run s ops)) = Some e' /\ e_cur e <= e_cur e' /\
+             e_id e' = e_id e /\ e_start e' = e_start e /\ e_dur e' = e_dur e /\
+             (e_started e = true -> e_started e' = true).
+Proof.
+  induction ops as [|o r IH]; intros s i e Hs Ho Hl.
+  - exists e. simpl. repeat split; auto; lia.
+  - rewrite run_cons. cbn [fst]. inversion Ho as [|? ? Ho1 Ho2]; subst.
+    destruct o as [t h|ct ch a].
+    + assert (Hs' : Forall cur_ok (fst (step s (Block t h)))).
+      { rewrite step_block, begin_block_eq. cbn [fst].
+        rewrite Forall_forall in *. intros x Hx. apply in_map_iff in Hx. destruct Hx as [y [<- Hy]].
+        apply step_info_cur. auto. }
+      assert (Hl' : lookup i (fst (step s (Block t h))) = Some (fst (step_info t h e))).
+      { rewrite step_block. cbn [fst]. rewrite lookup_begin_block, Hl. reflexivity. }
+      destruct (IH _ _ _ Hs' Ho2 Hl') as [e' [L [C [S1 [S2 [S3 S4]]]]]].
+      exists e'. destruct (lookup_In _ _ _ Hl) as [Hin _].
+      assert (Ce : cur_ok e) by (rewrite Forall_forall in Hs; auto).
+      destruct (step_info_cur t h e Ce) as [_ [[M1 _] M3]].
+      destruct (step_info_static t h e) as [T1 [T2 T3]].
+      split; [exact L|]. split; [lia|]. split; [congruence|]. split; [congruence|]. split; [congruence|].
+      intro X. apply S4. apply M3. exact X.
+    + assert (Hs' : Forall cur_ok (fst (step s (Add ct ch a)))).
+      { rewrite step_add. cbn [fst]. destruct (add_epoch_cases s ct ch a) as [E|[Hid E]]; rewrite E; simpl; [exact Hs|].
+        rewrite Forall_forall in *. intros x Hx. apply In_insert in Hx. destruct Hx as [->|Hx]; auto. }
+      assert (Hl' : lookup i (fst (step s (Add ct ch a))) = Some e).
+      { rewrite step_add. cbn [fst]. exact (lookup_add i s ct ch a e Hl). }
+      exact (IH _ _ _ Hs' Ho2 Hl').
+Qed.
+
+(* ---------------------------------------------------------------- hooks exactly once, in order *)
+
+Lemma span_n_S i a k : span_n i a (S k) = [AfterEnd i a; BeforeStart i (a + 1)] ++ span_n i (a + 1) k.
+Proof.
+  unfold span_n. rewrite <- cons_seq, <- seq_shift. simpl. rewrite Z.add_0_r. do 2 f_equal.
+  rewrite map_map. f_equal. apply map_ext. intro j. lia.
+Qed.
+
+Lemma span_step i a b : a + 1 <= b -> span i a b = [AfterEnd i a; BeforeStart i (a + 1)] ++ span i (a + 1) b.
+Proof.
+  intro H. unfold span. replace (Z.to_nat (b - a)) with (S (Z.to_nat (b - (a + 1)))) by lia. apply span_n_S.
+Qed.
+
+Lemma span_empty i a : span i a a = [].
+Proof. unfold span. rewrite Z.sub_diag. reflexivity. Qed.
+
+(** started infos stay started and never go back, whatever the genesis looked like *)
+Lemma started_monotone : forall ops s i e,
+  lookup i s = Some e -> e_started e = true ->
+  exists e', lookup i (fst (run s ops)) = Some e' /\ e_started e' = true /\ e_cur e <= e_cur e'.
+Proof.
+  induction ops as [|o r IH]; intros s i e Hl Hs.
+  - exists e. simpl. repeat split; auto; lia.
+  - rewrite run_cons. cbn [fst]. destruct o as [t h|ct ch a].
+    + assert (Hl' : lookup i (fst (step s (Block t h))) = Some (fst (step_info t h e))).
+      { rewrite step_block. cbn [fst]. rewrite lookup_begin_block, Hl. reflexivity. }
+      assert (Q : e_started (fst (step_info t h e)) = true /\ e_cur e <= e_cur (fst (step_info t h e))).
+      { unfold step_info, tick. rewrite Hs. destruct (should_tick e t); simpl; split; auto; lia. }
+      destruct Q as [Q1 Q2]. destruct (IH _ _ _ Hl' Q1) as [e' [L [A B]]].
+      exists e'. repeat split; auto; lia.
+    + assert (Hl' : lookup i (fst (step s (Add ct ch a))) = Some e).
+      { rewrite step_add. cbn [fst]. exact (lookup_add i s ct ch a e Hl). }
+      exact (IH _ _ _ Hl' Hs).
+Qed.
+
+Lemma all_hooks_cons x xs : all_hooks (x :: xs) = o_hooks x ++ all_hooks xs.
+Proof. reflexivity. Qed.
+
+(** MAIN (whole histories, no assumption on times or on the genesis counters): the hook calls for an
+    identifier are exactly the consecutive AfterEpochEnd n / BeforeEpochStart (n+1) pairs leading from
+    its first to its last epoch number, preceded by BeforeEpochStart 1 alone if counting started in
+    this history *)
+Theorem hooks_closed_form : forall ops s i e,
+  NoDup (ids s) -> lookup i s = Some e ->
+  exists e', lookup i (fst (run s ops)) = Some e' /\
+             proj i (all_hooks (snd (run s ops))) = expected e e'.
+Proof.
+  induction ops as [|o r IH]; intros s i e N Hl.
+  - exists e. split; [exact Hl|]. simpl. unfold expected.
+    destruct (e_started e); [rewrite span_empty|]; reflexivity.
+  - rewrite run_cons. cbn [fst]. cbn [snd]. rewrite all_hooks_cons, proj_app.
+    pose proof (NoDup_step s o N) as N'.
+    destruct (lookup_In _ _ _ Hl) as [Hin Hi].
+    destruct o as [t h|ct ch a].
+    + assert (Hl' : lookup i (fst (step s (Block t h))) = Some (fst (step_info t h e))).
+      { rewrite step_block. cbn [fst]. rewrite lookup_begin_block, Hl. reflexivity. }
+      assert (Hh : proj i (o_hooks (snd (step s (Block t h)))) = snd (step_info t h e)).
+      { rewrite step_block, begin_block_eq. simpl. rewrite <- Hi. apply block_hooks_proj; assumption. }
+      destruct (IH _ _ _ N' Hl') as [e' [L Hp]].
+      exists e'. split; [exact L|]. rewrite Hh, Hp. clear Hh Hp IH.
+      destruct (step_info_static t h e) as [T1 _].
+      unfold expected. rewrite T1. unfold step_info in *.
+      destruct (should_tick e t); [|reflexivity].
+      unfold tick in *. destruct (e_started e) eqn:Es; simpl in *.
+      * destruct (started_monotone r _ _ _ Hl' eq_refl) as [e2 [L2 [_ M]]]. simpl in M.
+        rewrite L in L2. inversion L2; subst e2.
+        rewrite (span_step (e_id e) (e_cur e) (e_cur e')) by lia. reflexivity.
+      * destruct (started_monotone r _ _ _ Hl' eq_refl) as [e2 [L2 [St _]]].
+        rewrite L in L2. inversion L2; subst e2. rewrite St. reflexivity.
+    + assert (Hl' : lookup i (fst (step s (Add ct ch a))) = Some e).
+      { rewrite step_add. cbn [fst]. exact (lookup_add i s ct ch a e Hl). }
+      assert (Hh : o_hooks (snd (step s (Add ct ch a))) = []).
+      { rewrite step_add. reflexivity. }
+      rewrite Hh. simpl. exact (IH _ _ _ N' Hl').
+Qed.
+
+(** an identifier that is not defined receives no hook call *)
+Lemma no_hooks_for_absent_id s t h i :
+  lookup i s = None -> proj i (snd (begin_block s t h)) = [].
+Proof.
+  intro H. rewrite begin_block_eq. simpl. apply block_hooks_absent. apply lookup_none. exact H.
+Qed.
+
+(* exactly-once as a count *)
+
+Definition hook_eq_dec (a b : hook) : {a = b} + {a <> b}.
+Proof. decide equality; try apply Z.eq_dec; apply Nat.eq_dec. Defined.
+
+Lemma count_span_n_end i a k n :
+  count_occ hook_eq_dec (span_n i a k) (AfterEnd i n) =
+  if (a <=? n) && (n <? a + Z.of_nat k) then 1%nat else 0%nat.
+Proof.
+  revert a. induction k as [|k IH]; intro a.
+  - simpl. replace (a + 0) with a by lia. destruct (a <=? n) eqn:E1, (n <? a) eqn:E2; try reflexivity.
+    apply Z.leb_le in E1. apply Z.ltb_lt in E2. lia.
+  - rewrite span_n_S. simpl app. rewrite count_occ_cons_neq by discriminate.
+    rewrite IH. destruct (Z.eq_dec a n) as [->|Hn].
+    + rewrite count_occ_cons_eq by reflexivity.
+      replace (n + 1 <=? n) with false by (symmetry; apply Z.leb_gt; lia). simpl.
+      replace (n <=? n) with true by (symmetry; apply Z.leb_le; lia).
+      replace (n <? n + Z.of_nat (S k)) with true by (symmetry; apply Z.ltb_lt; lia). reflexivity.
+    + rewrite count_occ_cons_neq by congruence.
+      destruct (a + 1 <=? n) eqn:E1, (a <=? n) eqn:E2, (n <? a + 1 + Z.of_nat k) eqn:E3, (n <? a + Z.of_nat (S k)) eqn:E4;
+        try reflexivity; exfalso;
+        repeat match goal with
+               | H : (_ <=? _) = true |- _ => apply Z.leb_le in H
+               | H : (_ <=? _) = false |- _ => apply Z.leb_gt in H
+               | H : (_ <? _) = true |- _ => apply Z.ltb_lt in H
+               | H : (_ <? _) = false |- _ => apply Z.ltb_ge in H
+               end; lia.
+Qed.
+
+Lemma count_span_n_start i a k n :
+  count_occ hook_eq_dec (span_n i a k) (BeforeStart i n) =
+  if (a + 1 <=? n) && (n <? a + 1 + Z.of_nat k) then 1%nat else 0%nat.
+Proof.
+  revert a. induction k as [|k IH]; intro a.
+  - simpl. replace (a + 1 + 0) with (a + 1) by lia.
+    destruct (a + 1 <=? n) eqn:E1, (n <? a + 1) eqn:E2; try reflexivity.
+    apply Z.leb_le in E1. apply Z.ltb_lt in E2. lia.
+  - rewrite span_n_S. simpl app. rewrite count_occ_cons_neq by discriminate.
+    rewrite IH. destruct (Z.eq_dec (a + 1) n) as [<-|Hn].
+    + rewrite count_occ_cons_eq by reflexivity.
+      replace (a + 1 + 1 <=? a + 1) with false by (symmetry; apply Z.leb_gt; lia). simpl.
+      replace (a + 1 <=? a + 1) with true by (symmetry; apply Z.leb_le; lia).
+      replace (a + 1 <? a + 1 + Z.of_nat (S k)) with true by (symmetry; apply Z.ltb_lt; lia). reflexivity.
+    + rewrite count_occ_cons_neq by congruence.
+      destruct (a + 1 + 1 <=? n) eqn:E1, (a + 1 <=? n) eqn:E2, (n <? a + 1 + 1 + Z.of_nat k) eqn:E3,
+               (n <? a + 1 + Z.of_nat (S k)) eqn:E4;
+        try reflexivity; exfalso;
+        repeat match goal with
+               | H : (_ <=? _) = true |- _ => apply Z.leb_le in H
+               | H : (_ <=? _) = false |- _ => apply Z.leb_gt in H
+               | H : (_ <? _) = true |- _ => apply Z.ltb_lt in H
+               | H : (_ <? _) = false |- _ => apply Z.ltb_ge in H
+               end; lia.
+Qed.
+
+(** for an identifier that is counting at the start of a history: AfterEpochEnd(n) is delivered exactly
+    once for every epoch number the identifier leaves, BeforeEpochStart(n) exactly once for every number
+    it enters, and never otherwise *)
+Theorem hooks_exactly_once : forall ops s i e,
+  NoDup (ids s) -> lookup i s = Some e -> e_started e = true ->
+  exists e', lookup i (fst (run s ops)) = Some e' /\ e_cur e <= e_cur e' /\
+    (forall n, count_occ hook_eq_dec (proj i (all_hooks (snd (run s ops)))) (AfterEnd i n) =
+               if (e_cur e <=? n) && (n <? e_cur e') then 1%nat else 0%nat) /\
+    (forall n, count_occ hook_eq_dec (proj i (all_hooks (snd (run s ops)))) (BeforeStart i n) =
+               if (e_cur e + 1 <=? n) && (n <=? e_cur e') then 1%nat else 0%nat).
+Proof.
+  intros ops s i e N Hl Hs.
+  destruct (hooks_closed_form ops s i e N Hl) as [e' [L Hp]].
+  destruct (started_monotone ops s i e Hl Hs) as [e2 [L2 [_ M]]].
+  rewrite L in L2. inversion L2; subst e2.
+  destruct (lookup_In _ _ _ Hl) as [_ Hi].
+  exists e'. split; [exact L|]. split; [exact M|].
+  rewrite Hp. unfold expected. rewrite Hs, Hi. unfold span. split; intro n.
+  - rewrite count_span_n_end. replace (e_cur e + Z.of_nat (Z.to_nat (e_cur e' - e_cur e))) with (e_cur e') by lia.
+    reflexivity.
+  - rewrite count_span_n_start.
+    replace (e_cur e + 1 + Z.of_nat (Z.to_nat (e_cur e' - e_cur e))) with (e_cur e' + 1) by lia.
+    replace (n <? e_cur e' + 1) with (n <=? e_cur e'); [reflexivity|].
+    destruct (n <=? e_cur e') eqn:E1, (n <? e_cur e' + 1) eqn:E2; try reflexivity; exfalso;
+      repeat match goal with
+             | H : (_ <=? _) = true |- _ => apply Z.leb_le in H
+             | H : (_ <=? _) = false |- _ => apply Z.leb_gt in H
+             | H : (_ <? _) = true |- _ => apply Z.ltb_lt in H
+             | H : (_ <? _) = false |- _ => apply Z.ltb_ge in H
+             end; lia.
+Qed.
+
+(* ---------------------------------------------------------------- single-block facts *)
+
+(** exact code condition, no hypothesis at all *)
+Lemma tick_iff_exact t h e :
+  e_cur (fst (step_info t h e)) <> e_cur e \/ e_started (fst (step_info t h e)) <> e_started e ->
+  e_start e <= t /\ (e_started e = false \/ e_cur_start e + e_dur e <= t).
+Proof.
+  unfold step_info. destruct (should_tick e t) eqn:St.
+  - intros _. apply should_tick_exact. exact St.
+  - simpl. intros [H|H]; contradiction H; reflexivity.
+Qed.
+
+Lemma start_is_block t h e :
+  should_tick e t = true ->
+  e_cur_start (fst (step_info t h e)) = t /\ e_height (fst (step_info t h e)) = h /\
+  e_started (fst (step_info t h e)) = true.
+Proof. intro St. unfold step_info, tick. rewrite St. destruct (e_started e); simpl; auto. Qed.
+
+Lemma no_tick_unchanged t h e : should_tick e t = false -> step_info t h e = (e, []).
+Proof. intro St. unfold step_info. rewrite St. reflexivity. Qed.
+
+(** a second block with the same timestamp does not tick again (positive duration) *)
+Lemma equal_time_no_second_tick t h h' e :
+  0 < e_dur e -> should_tick e t = true -> step_info t h' (fst (step_info t h e)) = (fst (step_info t h e), []).
+Proof.
+  intros Hd St. apply no_tick_unchanged. unfold step_info, tick. rewrite St.
+  unfold should_tick. destruct (e_started e); simpl; apply andb_false_iff; right; apply Z.leb_gt; lia.
+Qed.
+
+(** a clock that goes back (or stands still) before the epoch's end never ticks a counting epoch *)
+Lemma earlier_time_no_tick t h e :
+  e_started e = true -> t < e_cur_start e + e_dur e -> step_info t h e = (e, []).
+Proof.
+  intros Hs Ht. apply no_tick_unchanged. unfold should_tick. rewrite Hs. simpl.
+  apply andb_false_iff. right. apply Z.leb_gt. exact Ht.
+Qed.
+
+(** a long stall is one tick: epochs are not caught up, the new epoch starts at the block's time *)
+Lemma stall_is_one_tick t h e k :
+  e_started e = true -> e_start e <= t -> 0 <= k -> e_cur_start e + (k + 1) * e_dur e <= t -> 0 <= e_dur e ->
+  e_cur (fst (step_info t h e)) = e_cur e + 1 /\ e_cur_start (fst (step_info t h e)) = t.
+Proof.
+  intros Hs H0 Hk Ht Hd.
+  assert (St : should_tick e t = true).
+  { apply should_tick_exact. split; [exact H0|right]. nia. }
+  unfold step_info, tick. rewrite St, Hs. simpl. auto.
+Qed.
+
+(** a non-positive duration (Validate only rejects 0; negative passes) ticks in every block *)
+Lemma nonpositive_duration_ticks_every_block t e :
+  e_started e = true -> e_dur e <= 0 -> e_start e <= t -> e_cur_start e <= t -> should_tick e t = true.
+Proof. intros Hs Hd H0 H1. apply should_tick_exact. split; [exact H0|right; lia]. Qed.
+
+(* ---------------------------------------------------------------- outside the precondition *)
+
+Definition bad_unstarted : einfo :=
+  {| e_id := 0; e_start := 0; e_dur := 10; e_cur := 5; e_cur_start := 0; e_height := 0; e_started := false |}.
+
+Lemma monotone_refuted_for_unstarted_nonzero_epoch :
+  exists e t h, e_started e = false /\ e_cur (fst (step_info t h e)) < e_cur e.
+Proof. exists bad_unstarted, 0, 1. vm_compute. split; reflexivity. Qed.
+
+Definition bad_started : einfo :=
+  {| e_id := 0; e_start := 100; e_dur := 10; e_cur := 3; e_cur_start := 0; e_height := 0; e_started := true |}.
+
+Lemma tick_iff_refuted_for_started_before_start_time :
+  exists e t h, e_started e = true /\ cond e t /\ step_info t h e = (e, []).
+Proof.
+  exists bad_started, 50, 1. split; [reflexivity|]. split; [|reflexivity].
+  right. split; [reflexivity|]. vm_compute. discriminate.
+Qed.
+
+(* ---------------------------------------------------------------- the checker's precondition *)
+
+Lemma wfb_sound now e : wfb now e = true -> wf_info now e.
+Proof.
+  unfold wfb, wf_info. destruct (e_started e).
+  - intro H. apply andb_true_iff in H. destruct H as [A B]. apply Z.leb_le in A. apply Z.leb_le in B.
+    split; [discriminate|auto].
+  - intro H. apply Z.eqb_eq in H. split; [auto|discriminate].
+Qed.
+
+Lemma ops_ok_of_bool : forall ops now,
+  times_ok now ops = true -> forallb add_wfb ops = true -> ops_ok now ops.
+Proof.
+  induction ops as [|o r IH]; intros now Ht Ha; simpl in *; [exact I|].
+  apply andb_true_iff in Ht. destruct Ht as [T1 T2]. apply andb_true_iff in Ha. destruct Ha as [A1 A2].
+  split; [apply Z.leb_le; exact T1|]. split; [|apply IH; assumption].
+  destruct o; simpl in *; [exact I|apply wfb_sound; exact A1].
+Qed.
+
+(** wherever the check evaluates the property on a trace ([pre] holds, identifiers distinct), the model is
+    inside the hypotheses of [trace_satisfies_property] *)
+Lemma pre_sound c :
+  pre c = true -> NoDup (ids (c_init c)) ->
+  Inv (first_time (map fst (c_tr c))) (c_init c) /\ ops_ok (first_time (map fst (c_tr c))) (map fst (c_tr c)).
+Proof.
+  unfold pre. intros H N. apply andb_true_iff in H. destruct H as [H H3].
+  apply andb_true_iff in H. destruct H as [H1 H2]. split.
+  - split; [|exact N]. rewrite Forall_forall. rewrite forallb_forall in H1. intros x Hx. apply wfb_sound. auto.
+  - apply ops_ok_of_bool; assumption.
+Qed.
+
+(* ---------------------------------------------------------------- non-vacuity *)
+
+Definition day : Z := 86400.
+Definition ex_ops : list op :=
+  [Add 100 1 {| a_id := 1; a_empty := false; a_start := None; a_dur := day; a_cur := 0; a_cur_start := 0;
+                a_height := 0; a_started := false |};
+   Block 100 2; Block 100 3; Block (100 + day - 1) 4; Block (100 + day) 5; Block (100 + 7 * day) 6;
+   Add (100 + 7 * day) 6 {| a_id := 0; a_empty := false; a_start := Some (100 + 8 * day); a_dur := 5; a_cur := 0;
+                            a_cur_start := 0; a_height := 0; a_started := false |};
+   Block (100 + 8 * day) 7; Block (100 + 8 * day + 5) 8].
+
+Example ex_ops_ok : Inv 100 [] /\ ops_ok 100 ex_ops.
+Proof.
+  split; [split; constructor|]. unfold ex_ops, day. simpl.
+  repeat split; try lia; try discriminate; intros; try lia.
+Qed.
+
+Example ex_trace :
+  all_hooks (snd (run [] ex_ops)) =
+  [BeforeStart 1 1; AfterEnd 1 1; BeforeStart 1 2; AfterEnd 1 2; BeforeStart 1 3;
+   BeforeStart 0 1; AfterEnd 1 3; BeforeStart 1 4; AfterEnd 0 1; BeforeStart 0 2].
+Proof. vm_compute. reflexivity. Qed.
